@@ -106,6 +106,55 @@ static int pathops(const char *script, const char *outp) {
   return 0;
 }
 
+
+// ---- verdicts: a tree of tasks (fork / vfork / threads) issuing marker syscalls mkdirat(AT_FDCWD, DIR/m_ID_D)
+#define VD_MAXT 32
+#define VD_MAXS 64
+struct vd_step { char op; int arg; char dec; };
+static struct vd_step vd_tasks[VD_MAXT][VD_MAXS]; static int vd_n[VD_MAXT];
+static char vd_dir[2048]; static int vd_out;
+static void vd_run(int k);
+static void *vd_thread(void *a) { vd_run((int)(long)a); return NULL; }
+static void vd_run(int k) {
+  pthread_t th[VD_MAXS]; int nth = 0; static __thread char path[4096], line[128];
+  for (int i = 0; i < vd_n[k]; i++) {
+    struct vd_step *st = &vd_tasks[k][i];
+    if (st->op == 's') {
+      snprintf(path, sizeof path, "%s/m_%d_%c", vd_dir, st->arg, st->dec);
+      long r = syscall(SYS_mkdirat, AT_FDCWD, path, 0700); int e = errno;
+      int n = snprintf(line, sizeof line, "r %d %ld %d\n", st->arg, r, r < 0 ? e : 0);
+      syscall(SYS_write, vd_out, line, n);
+    } else if (st->op == 'f') {
+      pid_t c = fork(); if (c == 0) { vd_run(st->arg); _exit(0); }
+    } else if (st->op == 'v') {
+      pid_t c = vfork(); if (c == 0) { vd_run(st->arg); _exit(0); }
+    } else if (st->op == 't') {
+      pthread_create(&th[nth++], NULL, vd_thread, (void *)(long)st->arg);
+    } else if (st->op == 'w') {
+      for (int j = 0; j < nth; j++) pthread_join(th[j], NULL);
+      nth = 0; while (waitpid(-1, NULL, 0) > 0) {}
+    }
+  }
+  for (int j = 0; j < nth; j++) pthread_join(th[j], NULL);
+}
+static int verdicts(const char *script, const char *dir, const char *outp) {
+  FILE *in = fopen(script, "r"); if (!in) return 97;
+  strncpy(vd_dir, dir, sizeof vd_dir - 1);
+  vd_out = open(outp, O_CREAT | O_WRONLY | O_APPEND, 0600); if (vd_out < 0) return 96;
+  char op[16]; int a, cur = 0; char d[8];
+  while (fscanf(in, "%15s %d %7s", op, &a, d) == 3) {
+    if (!strcmp(op, "task")) { cur = a % VD_MAXT; continue; }
+    if (vd_n[cur] >= VD_MAXS) continue;
+    struct vd_step *st = &vd_tasks[cur][vd_n[cur]++]; st->arg = a; st->dec = d[0];
+    st->op = !strcmp(op, "s") ? 's' : !strcmp(op, "fork") ? 'f' : !strcmp(op, "vfork") ? 'v' : !strcmp(op, "thread") ? 't' : 'w';
+  }
+  fclose(in);
+  { char l0[64]; int n0 = snprintf(l0, sizeof l0, "p %d\n", (int)getpid()); syscall(SYS_write, vd_out, l0, n0); }
+  vd_run(0);
+  while (waitpid(-1, NULL, 0) > 0) {}
+  return 0;
+}
+
 int main(int argc, char **argv) {
   if (argc < 2) return 2;
   const char *c = argv[1];
@@ -238,6 +287,8 @@ int main(int argc, char **argv) {
     n += snprintf(buf + n, sizeof buf - n, "}\n");
     write(1, buf, n);
     _exit(0);
+  } else if (!strcmp(c, "verdicts")) {
+    _exit(verdicts(argv[2], argv[3], argv[4]));
   } else if (!strcmp(c, "pathops")) {
     _exit(pathops(argv[2], argv[3]));
   } else if (!strcmp(c, "selfmod")) {
